@@ -363,7 +363,15 @@ pub fn install_panic_hook() {
                     .unwrap_or_default();
                 CAPTURE.with(|c| *c.borrow_mut() = Some(format!("{msg} @ {loc}")));
             } else {
-                default(info);
+                // panics outside `catch` (e.g. inside a task of the client under a changed tree) are
+                // shown, but only the first few: an exploration can hit the same one a million times
+                static SHOWN: std::sync::atomic::AtomicU32 = std::sync::atomic::AtomicU32::new(0);
+                let n = SHOWN.fetch_add(1, std::sync::atomic::Ordering::Relaxed);
+                if n < 10 {
+                    default(info);
+                } else if n == 10 {
+                    eprintln!("(further panic messages suppressed)");
+                }
             }
         }));
     });
